@@ -405,7 +405,10 @@ def build(rec, policy=None):
             if rec.get("top_name") is not None:
                 inst.name = rec["top_name"]
             inst.reference = T
-            nl.top_instance = inst
+            if mode == "set_top_instance":
+                nl.set_top_instance(inst)     # the other public way to install a top (EBLIF reader)
+            else:
+                nl.top_instance = inst
     return B
 
 
